@@ -252,6 +252,13 @@ def sticky_end(rep, prog, R):
                             rr = al.resolve(op_place(t["args"][0]))
                             if rr == ("self", ()) and (t.get("f") or "").startswith(DS):
                                 touches = True      # a moving method of self
+                            elif rr == ("self", ()):
+                                # a helper method of self that writes a cursor field
+                                hb = prog.bodies.get(t.get("res") or t.get("f") or "")
+                                if hb is not None and hb.argc >= 1:
+                                    hw = {u[2][:1] for u in Aliases(hb, {1: "self"}).uses() if u[1] == "self" and u[0] in ("w", "rw") and u[2]}
+                                    if hw & cursor:
+                                        touches = True
                     rep.check(touches, R, "%s::%s retires the cursor when it declares the end" % (tshort, m), "cursor fields %s" % sorted(fmt_path(x) for x in cursor),
                               "`%s`::%s stores TERMINATED into self%s on a path that writes none of the cursor fields advance() continues from (self%s) and does not go through advance(): "
                               "the next advance() resumes the enumeration after the end was reported — the end is not sticky" % (ty, m, fmt_path(D), ", self".join(sorted(fmt_path(x) for x in cursor))), site=site(b, bi))
